@@ -14,6 +14,9 @@ EXPECT = {  # seed -> check expected to report it (DESIGN 10.5)
     "C13": "C13", "C13.2": "C04", "C14": "C14", "C14.2": "C14", "C15": "C15", "C15.2": "C15", "C16": "C16", "C16.2": "C16",
     "C17": "C17", "C17.2": "C06",
     "C01.3": "C01", "C03.3": "C03", "C04.3": "C07", "C08.3": "C13", "C13.3": "C13", "C14.3": "C14",
+    "C02.4": "C02", "C06.4": "C17", "C07.4": "C07", "C09.4": "C04", "C16.4": "C16", "C17.4": "C17",
+    "C04.5": "C07", "C05.5": "C01", "C10.5": "C10", "C12.5": "C12", "C15.5": "C15",
+    # C11.5 changes the nightly-only IFMA backend: it is caught by C11's thorough tier (ifma configuration), not by the quick tier replayed here
 }
 BENIGN = {  # benign mutant -> checks that must stay silent
     "C13-benign-drop-redundant-len": ["C13"], "C01-benign-chain-refactor": ["C01"], "C02-benign-drop-redundant-highbit": ["C02", "C17"],
@@ -21,7 +24,7 @@ BENIGN = {  # benign mutant -> checks that must stay silent
     "benign-C08-raw-sign-refactor": ["C08"], "benign-C06-step2-locals": ["C06", "C03"], "benign-C17-from-repr-vartime": ["C17"],
     "benign-C13-rename-reorder": ["C13"], "benign-C16-scalar-visitor": ["C16"], "benign-C03-step1": ["C03", "C06"],
     "C04-benign-mulbase-pow2": ["C04"], "benign-C07-ladder-while-let": ["C07"], "benign-C10-select-enumerate": ["C10", "C11"],
-    "benign-C13-explicit-loops": ["C13"], "benign-C03-double-reassoc": ["C03"], "benign-C07-ladder-step-commute": ["C07"], "benign-C06-decode-reassoc": ["C06"], "benign-C09-recompute-operators": ["C09"], "benign-C02-mont-mul-as-montgomery": ["C02"],
+    "benign-C13-explicit-loops": ["C13"], "benign-C03-double-reassoc": ["C03"], "benign-C07-ladder-step-commute": ["C07"], "benign-C06-decode-reassoc": ["C06"], "benign-C09-recompute-operators": ["C09"], "benign-C02-mont-mul-as-montgomery": ["C02"], "benign-C04-pippenger-sum-explicit": ["C04"], "benign-C01-load8-reorder": ["C01"], "benign-C01-as-bytes-q-loop": ["C01", "C11"],
 }
 WORKERS = 4
 
